@@ -6,10 +6,12 @@ import OsacaVerif.Props.C11Pipeline
 import OsacaVerif.Props.C13
 import OsacaVerif.Gen.IsaDb_x86
 /-
-  End to end (x86): theorems about `EndToEnd.analyseX86`, the function from FILE TEXT to the analysis and
-  its report, composed from the stage models (`Model/EndToEnd.lean`, glue in `Model/Glue.lean`).
+  End to end, both ISAs: theorems about `EndToEnd.analyse isa` (`analyseX86 = analyse .x86`, `analyseA64 = analyse
+  .a64`), the function from FILE TEXT to the analysis and its report, composed from the stage models
+  (`Model/EndToEnd.lean`, glue in `Model/Glue.lean`).  Every statement is ISA-generic (`isa : Operand.Isa` is
+  a parameter); the AArch64 instances with their non-vacuity examples are in `Props/EndToEndA64.lean`.
 
-  * `e2e_factors`, `e2e_factors_line`, `e2e_factors_ok` — `analyseX86` IS the composition of the stage
+  * `e2e_factors`, `e2e_factors_line`, `e2e_factors_ok` — `analyse isa` IS the composition of the stage
     models: parser, operand roles, lookup / composition / uniform pressure, register changes, selection,
     graph, critical path, LCD, column sums, report;
   * `e2e_per_line_local`, `e2e_per_line_local_files`, `e2e_rows_local` — the per-instruction data of a line
@@ -37,41 +39,48 @@ theorem glue_key_identifies (i j : Nat) (a b : X86.Operand) (h : Glue.keyOf i a 
 
 /-- `HAS_LD` / `HAS_ST` as the composition model recomputes them from the converted semantic operands are
     the flags the roles model reports; both models substitute the same operands by the register wildcard -/
-theorem glue_flags_agree (m : Model) (f : X86.Form) :
-    Compose.hasLd (stagesOf m f).ins = Isa.hasLoad (stagesOf m f).roles.sem ∧
-    Compose.hasSt (stagesOf m f).ins = Isa.hasStore (stagesOf m f).roles.sem ∧
-    (stagesOf m f).ins.operands = f.operands.map Glue.poperandOf ∧
-    Compose.substituteMem (stagesOf m f).ins.operands = Isa.substituteMem (f.operands.map Glue.poperandOf) := by
-  have h := Glue.composeIns_flags f.mnemonic (Glue.opndsOf f.operands)
-    (Isa.assignSrcDst .x86 m.isaDb f.mnemonic (Glue.opndsOf f.operands)).sem
-  have ho : (stagesOf m f).ins.operands = f.operands.map Glue.poperandOf := by
-    simp only [stagesOf, Glue.composeIns]; exact Glue.opndsOf_p f.operands
+theorem glue_flags_agree (isa : Operand.Isa) (m : Model) (f : Glue.Form) :
+    Compose.hasLd (stagesOf isa m f).ins = Isa.hasLoad (stagesOf isa m f).roles.sem ∧
+    Compose.hasSt (stagesOf isa m f).ins = Isa.hasStore (stagesOf isa m f).roles.sem ∧
+    (stagesOf isa m f).ins.operands = f.operands.map (·.p) ∧
+    Compose.substituteMem (stagesOf isa m f).ins.operands = Isa.substituteMem (f.operands.map (·.p)) := by
+  have h := Glue.composeIns_flags f.mnemonic f.operands (Isa.assignSrcDst isa m.isaDb f.mnemonic f.operands).sem
+  have ho : (stagesOf isa m f).ins.operands = f.operands.map (·.p) := rfl
   refine ⟨h.1, h.2, ho, ?_⟩
   rw [ho]; exact Glue.substituteMem_agree _
 
-/-! ### 1. `analyseX86` is the composition of the stage models -/
+/-- the matcher's view of the operands of a parsed line is the operand-by-operand conversion
+    (`RegisterOperand`, `ImmediateOperand`, `MemoryOperand`, … as `get_instruction` reads them) -/
+theorem glue_operands_x86 (f : X86.Form) : (Glue.formX86 f).operands.map (·.p) = f.operands.map Glue.poperandOf :=
+  Glue.opndsOf_p f.operands
+
+theorem glue_operands_a64 (mn : Txt) (ops : List ParseA64.Operand) (c : Option Txt) :
+    (Glue.formA64 (.instr mn ops c)).operands.map (·.p) = ops.map Glue.poperandA64 :=
+  Glue.opndsA64_p ops
+
+/-! ### 1. `analyse isa` is the composition of the stage models -/
 
 /-- **e2e_factors** (file level): parse the file (the Python raises at the first line `parse_line`
     rejects), compute the per-line data of every parsed line, then select, analyse and render. -/
-theorem e2e_factors (m : Model) (o : Opts) (file : Txt) :
-    analyseX86 m o file =
-      match collect (ParseX86.parseFile 0 file) with
+theorem e2e_factors (isa : Operand.Isa) (m : Model) (o : Opts) (file : Txt) :
+    analyse isa m o file =
+      match collect (parseFileOf isa file) with
       | .error (n, e) => .parseError n e
-      | .ok fs => assemble m o (fs.map fun x => lineOf m x.1 x.2.1 x.2.2) := rfl
+      | .ok fs => assemble isa m o (fs.map fun x => lineOf isa m x.1 x.2.1 x.2.2) := rfl
 
 /-- **e2e_factors** (line level): the per-line data are `Isa.assignSrcDst` (roles), then
     `Compose.assignTpLt` (lookup with fall-backs, load/store composition, uniform pressure) on the
     instruction with those roles, and `Isa.regChanges` (both variants) — through the glue conversions,
     nothing else. -/
-theorem e2e_factors_line (m : Model) (num : Nat) (text : Txt) (f : X86.Form) :
-    lineOf m num text f =
-      (let ops := Glue.opndsOf f.operands
-       let roles := Isa.assignSrcDst .x86 m.isaDb f.mnemonic ops
+theorem e2e_factors_line (isa : Operand.Isa) (m : Model) (num : Nat) (text : Txt) (f : Glue.Form) :
+    lineOf isa m num text f =
+      (let ops := f.operands
+       let roles := Isa.assignSrcDst isa m.isaDb f.mnemonic ops
        match Compose.assignTpLt m.mm (Glue.composeIns f.mnemonic ops roles.sem),
-             Isa.regChanges .x86 m.isaDb f.mnemonic ops roles.sem false,
-             Isa.regChanges .x86 m.isaDb f.mnemonic ops roles.sem true with
+             Isa.regChanges isa m.isaDb f.mnemonic ops roles.sem false,
+             Isa.regChanges isa m.isaDb f.mnemonic ops roles.sem true with
        | .ok t, .ok ch, .ok chp =>
-         { pl := { sel := Glue.selOf num f
+         { pl := { sel := f.sel num
                    sem := { src := roles.sem.src.map Isa.toDG, dst := roles.sem.dst.map Isa.toDG,
                             srcDst := roles.sem.srcDst.map Isa.toDG, lat := t.lat, latWoLoad := some t.latWoLoad,
                             hasLd := roles.hasLd, isLd := t.flags.contains Gen.flagLD,
@@ -80,36 +89,36 @@ theorem e2e_factors_line (m : Model) (num : Nat) (text : Txt) (f : X86.Form) :
                             tp := t.tp, pressure := t.pressure, used := Glue.usedMask m.mm.ports t.uops,
                             flags := Glue.flagsOf roles t }
                    text := text } }
-       | .error e, _, _ => { pl := { sel := Glue.selOf num f, text := text }, err := some (.tplt e) }
-       | .ok _, .error e, _ => { pl := { sel := Glue.selOf num f, text := text }, err := some (.changes e) }
-       | .ok _, .ok _, .error e => { pl := { sel := Glue.selOf num f, text := text }, err := some (.changes e) }) := by
+       | .error e, _, _ => { pl := { sel := f.sel num, text := text }, err := some (.tplt e) }
+       | .ok _, .error e, _ => { pl := { sel := f.sel num, text := text }, err := some (.changes e) }
+       | .ok _, .ok _, .error e => { pl := { sel := f.sel num, text := text }, err := some (.changes e) }) := by
   simp only [lineOf, semOfStages, stagesOf]
   cases Compose.assignTpLt m.mm _ with
   | error e => rfl
   | ok t =>
-    cases Isa.regChanges .x86 m.isaDb f.mnemonic _ _ false with
+    cases Isa.regChanges isa m.isaDb f.mnemonic _ _ false with
     | error e => rfl
     | ok ch =>
-      cases Isa.regChanges .x86 m.isaDb f.mnemonic _ _ true with
+      cases Isa.regChanges isa m.isaDb f.mnemonic _ _ true with
       | error e => rfl
       | ok chp => rfl
 
 /-- **e2e_factors** (analysis level): an `ok` outcome is `Pipeline.select`, then `Pipeline.analyze`
     (= what `Pipeline.run` returns), then `Pipeline.toReport`, then `Report.fullAnalysis` with the
     warning flags of `osaca.inspect` — on the lines of the file with their per-line data. -/
-theorem e2e_factors_ok (m : Model) (o : Opts) (file : Txt) (r : Result) (h : analyseX86 m o file = .ok r) :
-    ∃ fs k, collect (ParseX86.parseFile 0 file) = .ok fs ∧
-      r.parsed = (linesOf m fs).map (·.pl) ∧
+theorem e2e_factors_ok (isa : Operand.Isa) (m : Model) (o : Opts) (file : Txt) (r : Result) (h : analyse isa m o file = .ok r) :
+    ∃ fs k, collect (parseFileOf isa file) = .ok fs ∧
+      r.parsed = (linesOf isa m fs).map (·.pl) ∧
       select o.mode r.parsed = .ok k ∧ k ≠ [] ∧ r.kernel = k ∧
-      Pipeline.run (cfgOf m o) o.mode r.parsed = .ok r.analysis ∧
-      r.analysis = analyze (cfgOf m o) k ∧
+      Pipeline.run (cfgOf isa m o) o.mode r.parsed = .ok r.analysis ∧
+      r.analysis = analyze (cfgOf isa m o) k ∧
       r.report = toReport o.repr m.mm.ports o.ignoreUnknown m.mm.ports.length k r.analysis ∧
       r.text = Report.fullAnalysis o.version o.file o.arch o.stamp (Report.archWarningFlag o.archGiven)
         (Report.lengthWarningFlag (linesGiven o.mode) k.length r.parsed.length) false r.report := by
-  obtain ⟨fs, k, hc, hs, hk, _, hr⟩ := analyse_ok_inv m o file r h
-  have e1 : r.parsed = (linesOf m fs).map (·.pl) := by rw [hr, resultOf]
+  obtain ⟨fs, k, hc, hs, hk, _, hr⟩ := analyse_ok_inv isa m o file r h
+  have e1 : r.parsed = (linesOf isa m fs).map (·.pl) := by rw [hr, resultOf]
   have e2 : r.kernel = k := by rw [hr, resultOf]
-  have e3 : r.analysis = analyze (cfgOf m o) k := by rw [hr, resultOf]
+  have e3 : r.analysis = analyze (cfgOf isa m o) k := by rw [hr, resultOf]
   have e4 : r.report = toReport o.repr m.mm.ports o.ignoreUnknown m.mm.ports.length k r.analysis := by
     rw [e3, hr, resultOf]
   have e5 : r.text = Report.fullAnalysis o.version o.file o.arch o.stamp (Report.archWarningFlag o.archGiven)
@@ -126,131 +135,131 @@ theorem e2e_factors_ok (m : Model) (o : Opts) (file : Txt) (r : Result) (h : ana
 /-- **e2e_per_line_local** (∀ models, ∀ files that parse): the lines of the file with their per-instruction
     data (roles → semantic operands, matched entry → throughput, latency, latency without load, uniform
     pressure, flags, register changes) are the numbered non-blank texts of the file sent, one by one,
-    through `lineOfText m` — a function of the MODEL and the line's TEXT that only stores the number. -/
-theorem e2e_per_line_local (m : Model) (file : Txt) (fs : List (Nat × Txt × X86.Form))
-    (h : collect (ParseX86.parseFile 0 file) = .ok fs) :
-    linesOf m fs = (numbered 0 0 (splitLines file)).map (fun p => lineOfText m p.1 p.2) ∧
-    ∀ n n' t, lineOfText m n t = setLineNum n (lineOfText m n' t) :=
-  ⟨linesOf_file m file fs h, lineOfText_num m⟩
+    through `lineOfText isa m` — a function of the MODEL and the line's TEXT that only stores the number. -/
+theorem e2e_per_line_local (isa : Operand.Isa) (m : Model) (file : Txt) (fs : List (Nat × Txt × Glue.Form))
+    (h : collect (parseFileOf isa file) = .ok fs) :
+    linesOf isa m fs = (numbered 0 0 (splitLines file)).map (fun p => lineOfText isa m p.1 p.2) ∧
+    ∀ n n' t, lineOfText isa m n t = setLineNum n (lineOfText isa m n' t) :=
+  ⟨linesOf_file isa m file fs h, lineOfText_num isa m⟩
 
-theorem textLines_mem (m : Model) (ls : List Txt) (p : PLine) (hp : p ∈ (textLines m ls).map (·.pl)) :
-    ∃ t, (p.num, t) ∈ numbered 0 0 ls ∧ p = (lineOfText m p.num t).pl := by
+theorem textLines_mem (isa : Operand.Isa) (m : Model) (ls : List Txt) (p : PLine) (hp : p ∈ (textLines isa m ls).map (·.pl)) :
+    ∃ t, (p.num, t) ∈ numbered 0 0 ls ∧ p = (lineOfText isa m p.num t).pl := by
   obtain ⟨l, hl, rfl⟩ := List.mem_map.mp hp
   obtain ⟨q, hq, rfl⟩ := List.mem_map.mp hl
   refine ⟨q.2, ?_, ?_⟩ <;> simp [hq]
 
-theorem lineOfText_text (m : Model) (n : Nat) (t : Txt) : (lineOfText m n t).pl.text = t := by
+theorem lineOfText_text (isa : Operand.Isa) (m : Model) (n : Nat) (t : Txt) : (lineOfText isa m n t).pl.text = t := by
   unfold lineOfText
-  cases parseLine t with
+  cases parseLineOf isa t with
   | err e => rfl
   | ok f =>
     simp only [lineOf]
-    cases semOfStages m (stagesOf m f) <;> rfl
+    cases semOfStages m (stagesOf isa m f) <;> rfl
 
-theorem lineOfText_eraseNum (m : Model) (n n' : Nat) (t : Txt) :
-    eraseNum (lineOfText m n t).pl = eraseNum (lineOfText m n' t).pl := by
-  rw [lineOfText_num m n n' t]; rfl
+theorem lineOfText_eraseNum (isa : Operand.Isa) (m : Model) (n n' : Nat) (t : Txt) :
+    eraseNum (lineOfText isa m n t).pl = eraseNum (lineOfText isa m n' t).pl := by
+  rw [lineOfText_num isa m n n' t]; rfl
 
 /-- **e2e_per_line_local** (two files): a line with the same text has the same per-instruction data
     whatever else the two files contain, whatever the options — only the line number differs
     (history independence at file level, C18; "does not change any other instruction", C08). -/
-theorem e2e_per_line_local_files (m : Model) (o1 o2 : Opts) (file1 file2 : Txt) (r1 r2 : Result)
-    (h1 : analyseX86 m o1 file1 = .ok r1) (h2 : analyseX86 m o2 file2 = .ok r2)
+theorem e2e_per_line_local_files (isa : Operand.Isa) (m : Model) (o1 o2 : Opts) (file1 file2 : Txt) (r1 r2 : Result)
+    (h1 : analyse isa m o1 file1 = .ok r1) (h2 : analyse isa m o2 file2 = .ok r2)
     (p1 p2 : PLine) (hp1 : p1 ∈ r1.parsed) (hp2 : p2 ∈ r2.parsed) (ht : p1.text = p2.text) :
     eraseNum p1 = eraseNum p2 := by
-  obtain ⟨fs1, k1, hc1, _, _, _, hr1⟩ := analyse_ok_inv m o1 file1 r1 h1
-  obtain ⟨fs2, k2, hc2, _, _, _, hr2⟩ := analyse_ok_inv m o2 file2 r2 h2
+  obtain ⟨fs1, k1, hc1, _, _, _, hr1⟩ := analyse_ok_inv isa m o1 file1 r1 h1
+  obtain ⟨fs2, k2, hc2, _, _, _, hr2⟩ := analyse_ok_inv isa m o2 file2 r2 h2
   subst hr1 hr2
   simp only [resultOf] at hp1 hp2
-  rw [linesOf_file m _ fs1 hc1] at hp1
-  rw [linesOf_file m _ fs2 hc2] at hp2
-  obtain ⟨t1, _, e1⟩ := textLines_mem m _ p1 hp1
-  obtain ⟨t2, _, e2⟩ := textLines_mem m _ p2 hp2
-  have ht1 : p1.text = t1 := by rw [e1]; exact lineOfText_text m _ t1
-  have ht2 : p2.text = t2 := by rw [e2]; exact lineOfText_text m _ t2
+  rw [linesOf_file isa m _ fs1 hc1] at hp1
+  rw [linesOf_file isa m _ fs2 hc2] at hp2
+  obtain ⟨t1, _, e1⟩ := textLines_mem isa m _ p1 hp1
+  obtain ⟨t2, _, e2⟩ := textLines_mem isa m _ p2 hp2
+  have ht1 : p1.text = t1 := by rw [e1]; exact lineOfText_text isa m _ t1
+  have ht2 : p2.text = t2 := by rw [e2]; exact lineOfText_text isa m _ t2
   have : t1 = t2 := by rw [← ht1, ← ht2, ht]
   subst this
   rw [e1, e2]
-  exact lineOfText_eraseNum m _ _ t1
+  exact lineOfText_eraseNum isa m _ _ t1
 
 /-- the numbers the analysis shows for a line, computed from its text alone -/
-def rowOfText (m : Model) (t : Txt) : Row := rowOf m.mm.ports.length (lineOfText m 0 t).pl
+def rowOfText (isa : Operand.Isa) (m : Model) (t : Txt) : Row := rowOf m.mm.ports.length (lineOfText isa m 0 t).pl
 
-theorem rowOf_lineOfText (m : Model) (n : Nat) (t : Txt) :
-    rowOf m.mm.ports.length (lineOfText m n t).pl = { rowOfText m t with line := n } := by
+theorem rowOf_lineOfText (isa : Operand.Isa) (m : Model) (n : Nat) (t : Txt) :
+    rowOf m.mm.ports.length (lineOfText isa m n t).pl = { rowOfText isa m t with line := n } := by
   unfold rowOfText
-  rw [lineOfText_num m n 0 t]
+  rw [lineOfText_num isa m n 0 t]
   rfl
 
 /-- **e2e_rows_local**: every row of the analysis (line number, latency, latency without load,
     throughput, uniform pressure) is `rowOfText` of the text standing on that line of the file — the
     other lines of the file, the selection and the options do not enter. -/
-theorem e2e_rows_local (m : Model) (o : Opts) (file : Txt) (r : Result) (h : analyseX86 m o file = .ok r) :
+theorem e2e_rows_local (isa : Operand.Isa) (m : Model) (o : Opts) (file : Txt) (r : Result) (h : analyse isa m o file = .ok r) :
     r.analysis.rows = r.kernel.map (rowOf m.mm.ports.length) ∧ r.kernel.Sublist r.parsed ∧
     ∀ row ∈ r.analysis.rows, ∃ t, (row.line, t) ∈ numbered 0 0 (splitLines file) ∧
-      row = { rowOfText m t with line := row.line } := by
-  obtain ⟨fs, k, hc, hs, _, _, hr⟩ := analyse_ok_inv m o file r h
+      row = { rowOfText isa m t with line := row.line } := by
+  obtain ⟨fs, k, hc, hs, _, _, hr⟩ := analyse_ok_inv isa m o file r h
   subst hr
   have hsub := select_sublist _ _ _ hs
   refine ⟨rfl, hsub, ?_⟩
   intro row hrow
-  obtain ⟨p, hp, rfl⟩ := List.mem_map.mp (show row ∈ k.map (rowOf (EndToEnd.cfgOf m o).nports) from hrow)
+  obtain ⟨p, hp, rfl⟩ := List.mem_map.mp (show row ∈ k.map (rowOf (EndToEnd.cfgOf isa m o).nports) from hrow)
   have hp' := hsub.subset hp
-  rw [linesOf_file m _ fs hc] at hp'
-  obtain ⟨t, ht, e⟩ := textLines_mem m _ p hp'
+  rw [linesOf_file isa m _ fs hc] at hp'
+  obtain ⟨t, ht, e⟩ := textLines_mem isa m _ p hp'
   refine ⟨t, ht, ?_⟩
-  show rowOf m.mm.ports.length p = { rowOfText m t with line := p.num }
+  show rowOf m.mm.ports.length p = { rowOfText isa m t with line := p.num }
   conv_lhs => rw [e]
-  exact rowOf_lineOfText m p.num t
+  exact rowOf_lineOfText isa m p.num t
 
 /-! ### 3. an unknown instruction stays isolated -/
 
 /-- the per-line data of a line whose mnemonic has no entry in the model, neither directly nor through
     the fall-back spelling, for whatever operands (so neither for the register form): the unknown path
     of `assign_tp_lt` (`Props.C08.unknown_spec`) -/
-theorem lineOfText_unknown (m : Model) (n : Nat) (t : Txt) (f : X86.Form) (mn : Txt)
-    (hp : parseLine t = .ok f) (hmn : f.mnemonic = some mn)
+theorem lineOfText_unknown (isa : Operand.Isa) (m : Model) (n : Nat) (t : Txt) (f : Glue.Form) (mn : Txt)
+    (hp : parseLineOf isa t = .ok f) (hmn : f.mnemonic = some mn)
     (hno : ∀ ops, Match.lookupWithFallbacks m.mm.isa m.mm.db mn ops = none)
-    (herr : (lineOfText m n t).err = none) :
-    (lineOfText m n t).pl.isInstr = true ∧
-    (lineOfText m n t).pl.sem.tp = 0 ∧ (lineOfText m n t).pl.sem.lat = 0 ∧
-    (lineOfText m n t).pl.sem.latWoLoad = some 0 ∧
-    (lineOfText m n t).pl.sem.pressure = Ports.zeros m.mm.ports.length ∧
-    (lineOfText m n t).pl.sem.used = m.mm.ports.map (fun _ => false) ∧
-    Gen.flagTpUnknown ∈ (lineOfText m n t).pl.sem.flags ∧ Gen.flagLtUnknown ∈ (lineOfText m n t).pl.sem.flags := by
-  have hu : (stagesOf m f).tplt = .ok (Compose.unknown m.mm) := by
+    (herr : (lineOfText isa m n t).err = none) :
+    (lineOfText isa m n t).pl.isInstr = true ∧
+    (lineOfText isa m n t).pl.sem.tp = 0 ∧ (lineOfText isa m n t).pl.sem.lat = 0 ∧
+    (lineOfText isa m n t).pl.sem.latWoLoad = some 0 ∧
+    (lineOfText isa m n t).pl.sem.pressure = Ports.zeros m.mm.ports.length ∧
+    (lineOfText isa m n t).pl.sem.used = m.mm.ports.map (fun _ => false) ∧
+    Gen.flagTpUnknown ∈ (lineOfText isa m n t).pl.sem.flags ∧ Gen.flagLtUnknown ∈ (lineOfText isa m n t).pl.sem.flags := by
+  have hu : (stagesOf isa m f).tplt = .ok (Compose.unknown m.mm) := by
     simp only [stagesOf]
     exact (Props.C08.unknown_spec m.mm _ mn (by simp [Glue.composeIns, hmn]) (hno _) (Or.inr (hno _))).1
   unfold lineOfText at herr ⊢
   simp only [hp] at herr ⊢
   simp only [lineOf, semOfStages, hu] at herr ⊢
-  cases hc : (stagesOf m f).changes with
+  cases hc : (stagesOf isa m f).changes with
   | error e => simp [hc] at herr
   | ok ch =>
-    cases hcp : (stagesOf m f).changesPost with
+    cases hcp : (stagesOf isa m f).changesPost with
     | error e => simp [hc, hcp] at herr
     | ok chp =>
-      refine ⟨by simp [PLine.isInstr, Glue.selOf, hmn], rfl, rfl, rfl, rfl, ?_, ?_, ?_⟩
+      refine ⟨by simp [PLine.isInstr, Glue.Form.sel, hmn], rfl, rfl, rfl, rfl, ?_, ?_, ?_⟩
       · simp [Compose.unknown, Glue.usedMask]
       · simp [Glue.flagsOf, Compose.unknown]
       · simp [Glue.flagsOf, Compose.unknown]
 
 /-- the lines of two files that differ in one (non-blank) line: everything else is the same -/
-theorem textLines_replace (m : Model) (xs ys : List Txt) (l : Txt) (hl : isBlank l = false) :
-    textLines m (xs ++ l :: ys) =
-      (numbered 0 0 xs).map (fun p => lineOfText m p.1 p.2) ++ lineOfText m (xs.length + 1) l ::
-        (numbered 0 (xs.length + 1) ys).map (fun p => lineOfText m p.1 p.2) := by
+theorem textLines_replace (isa : Operand.Isa) (m : Model) (xs ys : List Txt) (l : Txt) (hl : isBlank l = false) :
+    textLines isa m (xs ++ l :: ys) =
+      (numbered 0 0 xs).map (fun p => lineOfText isa m p.1 p.2) ++ lineOfText isa m (xs.length + 1) l ::
+        (numbered 0 (xs.length + 1) ys).map (fun p => lineOfText isa m p.1 p.2) := by
   simp [textLines, numbered_replace xs ys l hl]
 
-theorem front_nums (m : Model) (xs : List Txt) :
-    ∀ q ∈ (numbered 0 0 xs).map (fun p => lineOfText m p.1 p.2), q.pl.num ≤ xs.length := by
+theorem front_nums (isa : Operand.Isa) (m : Model) (xs : List Txt) :
+    ∀ q ∈ (numbered 0 0 xs).map (fun p => lineOfText isa m p.1 p.2), q.pl.num ≤ xs.length := by
   intro q hq
   obtain ⟨p, hp, rfl⟩ := List.mem_map.mp hq
   have := numbered_hi 0 0 xs p hp
   simp; omega
 
-theorem back_nums (m : Model) (i : Nat) (ys : List Txt) :
-    ∀ q ∈ (numbered 0 i ys).map (fun p => lineOfText m p.1 p.2), i + 1 ≤ q.pl.num := by
+theorem back_nums (isa : Operand.Isa) (m : Model) (i : Nat) (ys : List Txt) :
+    ∀ q ∈ (numbered 0 i ys).map (fun p => lineOfText isa m p.1 p.2), i + 1 ≤ q.pl.num := by
   intro q hq
   obtain ⟨p, hp, rfl⟩ := List.mem_map.mp hq
   have := numbered_lo 0 i ys p hp
@@ -278,13 +287,13 @@ theorem firstErr_none (lines : List Line) (k : List PLine) (h : firstErr lines k
         pressure on every port, and the report row carries `tp_unknown` and `lt_unknown`;
     (c) every other row of the analysis (latency, latency without load, throughput, pressure) is
         unchanged. -/
-theorem e2e_unknown_isolated (m : Model) (o : Opts) (xs ys : List Txt) (l l' : Txt)
+theorem e2e_unknown_isolated (isa : Operand.Isa) (m : Model) (o : Opts) (xs ys : List Txt) (l l' : Txt)
     (hnl : ∀ t ∈ xs ++ l :: ys, 10 ∉ t) (hnl' : 10 ∉ l')
     (hb : isBlank l = false) (hb' : isBlank l' = false)
-    (f' : X86.Form) (mn' : Txt) (hp' : parseLine l' = .ok f') (hmn : f'.mnemonic = some mn')
+    (f' : Glue.Form) (mn' : Txt) (hp' : parseLineOf isa l' = .ok f') (hmn : f'.mnemonic = some mn')
     (hno : ∀ ops, Match.lookupWithFallbacks m.mm.isa m.mm.db mn' ops = none)
-    (r1 r2 : Result) (h1 : analyseX86 m o (joinLines (xs ++ l :: ys)) = .ok r1)
-    (h2 : analyseX86 m o (joinLines (xs ++ l' :: ys)) = .ok r2) :
+    (r1 r2 : Result) (h1 : analyse isa m o (joinLines (xs ++ l :: ys)) = .ok r1)
+    (h2 : analyse isa m o (joinLines (xs ++ l' :: ys)) = .ok r2) :
     (∀ p, p.num ≠ xs.length + 1 → (p ∈ r1.parsed ↔ p ∈ r2.parsed)) ∧
     (∀ row ∈ r2.analysis.rows, row.line = xs.length + 1 →
       row.instr = true ∧ row.tp = 0 ∧ row.lat = 0 ∧ row.latWoLoad = some 0 ∧
@@ -301,18 +310,18 @@ theorem e2e_unknown_isolated (m : Model) (o : Opts) (xs ys : List Txt) (l l' : T
     · rcases List.mem_cons.mp h with h | h
       · subst h; exact hnl'
       · exact hnl t (by simp [h])
-  obtain ⟨k1, hs1, _, _, hr1⟩ := analyse_lines_ok_inv m o _ (by simp) hnl r1 h1
-  obtain ⟨k2, hs2, _, he2, hr2⟩ := analyse_lines_ok_inv m o _ (by simp) hnl2 r2 h2
+  obtain ⟨k1, hs1, _, _, hr1⟩ := analyse_lines_ok_inv isa m o _ (by simp) hnl r1 h1
+  obtain ⟨k2, hs2, _, he2, hr2⟩ := analyse_lines_ok_inv isa m o _ (by simp) hnl2 r2 h2
   have hsub1 := select_sublist _ _ _ hs1
   have hsub2 := select_sublist _ _ _ hs2
-  have inc2 := textLines_increasing m (xs ++ l' :: ys)
-  have t1 := textLines_replace m xs ys l hb
-  have t2 := textLines_replace m xs ys l' hb'
-  have hfront := front_nums m xs
-  have hback := back_nums m (xs.length + 1) ys
+  have inc2 := textLines_increasing isa m (xs ++ l' :: ys)
+  have t1 := textLines_replace isa m xs ys l hb
+  have t2 := textLines_replace isa m xs ys l' hb'
+  have hfront := front_nums isa m xs
+  have hback := back_nums isa m (xs.length + 1) ys
   -- (a)
   have ha : ∀ p : PLine, p.num ≠ xs.length + 1 →
-      (p ∈ (textLines m (xs ++ l :: ys)).map (·.pl) ↔ p ∈ (textLines m (xs ++ l' :: ys)).map (·.pl)) := by
+      (p ∈ (textLines isa m (xs ++ l :: ys)).map (·.pl) ↔ p ∈ (textLines isa m (xs ++ l' :: ys)).map (·.pl)) := by
     intro p hp
     rw [t1, t2]
     simp only [List.map_append, List.map_cons, List.mem_append, List.mem_cons]
@@ -326,12 +335,12 @@ theorem e2e_unknown_isolated (m : Model) (o : Opts) (xs ys : List Txt) (l l' : T
       · exact absurd (by rw [h]; simp) hp
       · exact Or.inr (Or.inr h)
   -- the replaced line in the second run
-  have hX : ∀ p ∈ k2, p.num = xs.length + 1 → p = (lineOfText m (xs.length + 1) l').pl ∧
-      (lineOfText m (xs.length + 1) l').err = none := by
+  have hX : ∀ p ∈ k2, p.num = xs.length + 1 → p = (lineOfText isa m (xs.length + 1) l').pl ∧
+      (lineOfText isa m (xs.length + 1) l').err = none := by
     intro p hp hn
     have hp2 := hsub2.subset hp
-    have hmem : (lineOfText m (xs.length + 1) l') ∈ textLines m (xs ++ l' :: ys) := by rw [t2]; simp
-    have hmem' : (lineOfText m (xs.length + 1) l').pl ∈ (textLines m (xs ++ l' :: ys)).map (·.pl) :=
+    have hmem : (lineOfText isa m (xs.length + 1) l') ∈ textLines isa m (xs ++ l' :: ys) := by rw [t2]; simp
+    have hmem' : (lineOfText isa m (xs.length + 1) l').pl ∈ (textLines isa m (xs ++ l' :: ys)).map (·.pl) :=
       List.mem_map.mpr ⟨_, hmem, rfl⟩
     exact ⟨increasing_unique _ inc2 _ _ hp2 hmem' (by rw [hn]; simp),
       firstErr_none _ _ he2 _ hmem p hp (by rw [hn]; simp)⟩
@@ -341,9 +350,9 @@ theorem e2e_unknown_isolated (m : Model) (o : Opts) (xs ys : List Txt) (l l' : T
     exact ha p hp
   · intro row hrow hline
     rw [hr2] at hrow
-    obtain ⟨p, hp, rfl⟩ := List.mem_map.mp (show row ∈ k2.map (rowOf (EndToEnd.cfgOf m o).nports) from hrow)
+    obtain ⟨p, hp, rfl⟩ := List.mem_map.mp (show row ∈ k2.map (rowOf (EndToEnd.cfgOf isa m o).nports) from hrow)
     obtain ⟨e, herr⟩ := hX p hp hline
-    obtain ⟨u1, u2, u3, u4, u5, _, _, _⟩ := lineOfText_unknown m _ l' f' mn' hp' hmn hno herr
+    obtain ⟨u1, u2, u3, u4, u5, _, _, _⟩ := lineOfText_unknown isa m _ l' f' mn' hp' hmn hno herr
     rw [e]
     simp only [rowOf, semOf, u1, if_true]
     exact ⟨trivial, u2, u3, u4, u5⟩
@@ -352,26 +361,26 @@ theorem e2e_unknown_isolated (m : Model) (o : Opts) (xs ys : List Txt) (l l' : T
     simp only [resultOf, toReport] at hrr
     obtain ⟨p, hp, rfl⟩ := List.mem_map.mp hrr
     obtain ⟨e, herr⟩ := hX p hp hline
-    obtain ⟨u1, _, _, _, u5, _, u7, u8⟩ := lineOfText_unknown m _ l' f' mn' hp' hmn hno herr
+    obtain ⟨u1, _, _, _, u5, _, u7, u8⟩ := lineOfText_unknown isa m _ l' f' mn' hp' hmn hno herr
     rw [e]
     simp only [semOf, u1, if_true]
     exact ⟨trivial, u5, u7, u8⟩
   · intro row1 hrow1 row2 hrow2 hline hne
     rw [hr1] at hrow1
     rw [hr2] at hrow2
-    obtain ⟨p1, hp1, rfl⟩ := List.mem_map.mp (show row1 ∈ k1.map (rowOf (EndToEnd.cfgOf m o).nports) from hrow1)
-    obtain ⟨p2, hp2, rfl⟩ := List.mem_map.mp (show row2 ∈ k2.map (rowOf (EndToEnd.cfgOf m o).nports) from hrow2)
+    obtain ⟨p1, hp1, rfl⟩ := List.mem_map.mp (show row1 ∈ k1.map (rowOf (EndToEnd.cfgOf isa m o).nports) from hrow1)
+    obtain ⟨p2, hp2, rfl⟩ := List.mem_map.mp (show row2 ∈ k2.map (rowOf (EndToEnd.cfgOf isa m o).nports) from hrow2)
     have hp1' := (ha p1 hne).mp (hsub1.subset hp1)
     have := increasing_unique _ inc2 p1 p2 hp1' (hsub2.subset hp2) hline
     rw [this]
 
 /-- with `--lines` the same lines are selected in both runs: the two analyses have the same rows, line
     by line, except for the numbers of the replaced line -/
-theorem e2e_unknown_isolated_lines (m : Model) (o : Opts) (spec : Txt) (ho : o.mode = .lines spec)
+theorem e2e_unknown_isolated_lines (isa : Operand.Isa) (m : Model) (o : Opts) (spec : Txt) (ho : o.mode = .lines spec)
     (xs ys : List Txt) (l l' : Txt) (hnl : ∀ t ∈ xs ++ l :: ys, 10 ∉ t) (hnl' : 10 ∉ l')
     (hb : isBlank l = false) (hb' : isBlank l' = false)
-    (r1 r2 : Result) (h1 : analyseX86 m o (joinLines (xs ++ l :: ys)) = .ok r1)
-    (h2 : analyseX86 m o (joinLines (xs ++ l' :: ys)) = .ok r2) :
+    (r1 r2 : Result) (h1 : analyse isa m o (joinLines (xs ++ l :: ys)) = .ok r1)
+    (h2 : analyse isa m o (joinLines (xs ++ l' :: ys)) = .ok r2) :
     r1.analysis.rows.map (·.line) = r2.analysis.rows.map (·.line) := by
   have hnl2 : ∀ t ∈ xs ++ l' :: ys, 10 ∉ t := by
     intro t ht
@@ -380,17 +389,17 @@ theorem e2e_unknown_isolated_lines (m : Model) (o : Opts) (spec : Txt) (ho : o.m
     · rcases List.mem_cons.mp h with h | h
       · subst h; exact hnl'
       · exact hnl t (by simp [h])
-  obtain ⟨k1, hs1, _, _, hr1⟩ := analyse_lines_ok_inv m o _ (by simp) hnl r1 h1
-  obtain ⟨k2, hs2, _, _, hr2⟩ := analyse_lines_ok_inv m o _ (by simp) hnl2 r2 h2
+  obtain ⟨k1, hs1, _, _, hr1⟩ := analyse_lines_ok_inv isa m o _ (by simp) hnl r1 h1
+  obtain ⟨k2, hs2, _, _, hr2⟩ := analyse_lines_ok_inv isa m o _ (by simp) hnl2 r2 h2
   rw [ho] at hs1 hs2
   obtain ⟨ra, hra, e1⟩ := select_lines_eq spec _ _ hs1
   obtain ⟨rb, hrb, e2⟩ := select_lines_eq spec _ _ hs2
   rw [hra] at hrb
   cases hrb
-  have hn : ((textLines m (xs ++ l :: ys)).map (·.pl)).map (·.num) = ((textLines m (xs ++ l' :: ys)).map (·.pl)).map (·.num) := by
+  have hn : ((textLines isa m (xs ++ l :: ys)).map (·.pl)).map (·.num) = ((textLines isa m (xs ++ l' :: ys)).map (·.pl)).map (·.num) := by
     simp only [List.map_map]
-    have a := textLines_nums m (xs ++ l :: ys)
-    have b := textLines_nums m (xs ++ l' :: ys)
+    have a := textLines_nums isa m (xs ++ l :: ys)
+    have b := textLines_nums isa m (xs ++ l' :: ys)
     simp only [Function.comp_def] at a b ⊢
     rw [a, b, numbered_replace xs ys l hb, numbered_replace xs ys l' hb']
     simp
@@ -406,27 +415,27 @@ theorem e2e_unknown_isolated_lines (m : Model) (o : Opts) (spec : Txt) (ho : o.m
 /-! ### 4. comment, label and directive lines are transparent — at the level of the file TEXT -/
 
 /-- a non-blank line that is not an instruction: `parse_line` accepts it and finds no mnemonic
-    (a comment-only line `# …`, a label line, a directive line) -/
-def IsNoise (n : Txt) : Prop := isBlank n = false ∧ ∃ f, parseLine n = .ok f ∧ f.mnemonic = none
+    (a comment-only line `# …` / `// …`, a label line, a directive line) -/
+def IsNoise (isa : Operand.Isa) (n : Txt) : Prop := isBlank n = false ∧ ∃ f, parseLineOf isa n = .ok f ∧ f.mnemonic = none
 
 /-- where the old line `x` stands after a line has been inserted behind the first `pos` lines -/
 def shiftAt (pos x : Nat) : Nat := if x ≤ pos then x else x + 1
 
-theorem lineOfText_noise (m : Model) (num : Nat) (n : Txt) (hn : IsNoise n) : (lineOfText m num n).pl.isInstr = false := by
+theorem lineOfText_noise (isa : Operand.Isa) (m : Model) (num : Nat) (n : Txt) (hn : IsNoise isa n) : (lineOfText isa m num n).pl.isInstr = false := by
   obtain ⟨_, f, hp, hm⟩ := hn
   unfold lineOfText
   simp only [hp, lineOf]
-  cases semOfStages m (stagesOf m f) <;> simp [PLine.isInstr, Glue.selOf, hm]
+  cases semOfStages m (stagesOf isa m f) <;> simp [PLine.isInstr, Glue.Form.sel, hm]
 
 /-- **parse level**: the file with the inserted line parses to the old lines — those in front unchanged,
     those behind with their numbers moved by one — and one more line that is not an instruction -/
-theorem textLines_insert (m : Model) (xs ys : List Txt) (n : Txt) (hb : isBlank n = false) :
-    textLines m (xs ++ ys) =
-      (numbered 0 0 xs).map (fun p => lineOfText m p.1 p.2) ++
-        (numbered 0 xs.length ys).map (fun p => lineOfText m p.1 p.2) ∧
-    textLines m (xs ++ n :: ys) =
-      (numbered 0 0 xs).map (fun p => lineOfText m p.1 p.2) ++ lineOfText m (xs.length + 1) n ::
-        (numbered 0 xs.length ys).map (fun p => lineOfText m (p.1 + 1) p.2) := by
+theorem textLines_insert (isa : Operand.Isa) (m : Model) (xs ys : List Txt) (n : Txt) (hb : isBlank n = false) :
+    textLines isa m (xs ++ ys) =
+      (numbered 0 0 xs).map (fun p => lineOfText isa m p.1 p.2) ++
+        (numbered 0 xs.length ys).map (fun p => lineOfText isa m p.1 p.2) ∧
+    textLines isa m (xs ++ n :: ys) =
+      (numbered 0 0 xs).map (fun p => lineOfText isa m p.1 p.2) ++ lineOfText isa m (xs.length + 1) n ::
+        (numbered 0 xs.length ys).map (fun p => lineOfText isa m (p.1 + 1) p.2) := by
   constructor
   · simp [textLines, numbered_append]
   · simp [textLines, numbered_insert xs ys n hb, List.map_map, Function.comp_def]
@@ -457,31 +466,31 @@ theorem same_instr_of_pointwise {α : Type} (nb : List α) (g1 g2 : α → PLine
 /-- **the selected kernels carry the same instructions**: if the selection of the second file selects the
     old lines the selection of the first file selects (and the inserted line or not), the two kernels
     have the same instruction lines in the same order, up to their numbers -/
-theorem kernels_same_instr (m : Model) (xs ys : List Txt) (n : Txt) (hn : IsNoise n) (S1 S2 : Nat → Bool)
+theorem kernels_same_instr (isa : Operand.Isa) (m : Model) (xs ys : List Txt) (n : Txt) (hn : IsNoise isa n) (S1 S2 : Nat → Bool)
     (hS : ∀ x, S2 (shiftAt xs.length x) = S1 x) :
-    (((((textLines m (xs ++ ys)).map (·.pl)).filter fun p => S1 p.num).filter (·.isInstr)).map eraseNum) =
-    (((((textLines m (xs ++ n :: ys)).map (·.pl)).filter fun p => S2 p.num).filter (·.isInstr)).map eraseNum) := by
-  obtain ⟨e1, e2⟩ := textLines_insert m xs ys n hn.1
+    (((((textLines isa m (xs ++ ys)).map (·.pl)).filter fun p => S1 p.num).filter (·.isInstr)).map eraseNum) =
+    (((((textLines isa m (xs ++ n :: ys)).map (·.pl)).filter fun p => S2 p.num).filter (·.isInstr)).map eraseNum) := by
+  obtain ⟨e1, e2⟩ := textLines_insert isa m xs ys n hn.1
   rw [e1, e2]
   simp only [List.map_append, List.map_cons, List.filter_append, List.filter_cons, List.map_map]
-  have hN : (lineOfText m (xs.length + 1) n).pl.isInstr = false := lineOfText_noise m _ n hn
-  have front := same_instr_of_pointwise (numbered 0 0 xs) (fun p => (lineOfText m p.1 p.2).pl)
-    (fun p => (lineOfText m p.1 p.2).pl) S1 S2 (by
+  have hN : (lineOfText isa m (xs.length + 1) n).pl.isInstr = false := lineOfText_noise isa m _ n hn
+  have front := same_instr_of_pointwise (numbered 0 0 xs) (fun p => (lineOfText isa m p.1 p.2).pl)
+    (fun p => (lineOfText isa m p.1 p.2).pl) S1 S2 (by
       intro p hp
       refine ⟨rfl, ?_⟩
       have := numbered_hi 0 0 xs p hp
       simp only [lineOfText_pl_num]
       rw [← hS p.1, shiftAt, if_pos (by omega)])
-  have back := same_instr_of_pointwise (numbered 0 xs.length ys) (fun p => (lineOfText m p.1 p.2).pl)
-    (fun p => (lineOfText m (p.1 + 1) p.2).pl) S1 S2 (by
+  have back := same_instr_of_pointwise (numbered 0 xs.length ys) (fun p => (lineOfText isa m p.1 p.2).pl)
+    (fun p => (lineOfText isa m (p.1 + 1) p.2).pl) S1 S2 (by
       intro p hp
-      refine ⟨lineOfText_eraseNum m _ _ _, ?_⟩
+      refine ⟨lineOfText_eraseNum isa m _ _ _, ?_⟩
       have := numbered_lo 0 xs.length ys p hp
       simp only [lineOfText_pl_num]
       rw [← hS p.1, shiftAt, if_neg (by omega)])
   simp only [Function.comp_def]
   rw [front, back]
-  cases S2 (lineOfText m (xs.length + 1) n).pl.num <;> simp [hN]
+  cases S2 (lineOfText isa m (xs.length + 1) n).pl.num <;> simp [hN]
 
 /-- **e2e_noise_transparent_text** (C11 at the level of the file TEXT; ∀ models, ∀ files, ∀ positions):
     insert a comment-only line, a label line or a directive line `n` behind the first `|xs|` lines of a
@@ -493,11 +502,11 @@ theorem kernels_same_instr (m : Model) (xs ys : List Txt) (n : Txt) (hn : IsNois
     `SameOnInstr … r1.analysis (a₀.rename g1)` and `SameOnInstr … r2.analysis (a₀.rename g2)`:
     per-instruction rows, dependency edges with weights, LCD entries / dictionary / figure / marks, column
     sums equal; the non-instruction rows are zeros; critical path total (≥ 0) and marks (> 0) equal. -/
-theorem e2e_noise_transparent_text (m : Model) (o1 o2 : Opts) (hfd : o1.flagDeps = o2.flagDeps)
+theorem e2e_noise_transparent_text (isa : Operand.Isa) (m : Model) (o1 o2 : Opts) (hfd : o1.flagDeps = o2.flagDeps)
     (hfl : o1.floor = o2.floor) (xs ys : List Txt) (n : Txt) (hne : xs ++ ys ≠ [])
-    (hnl : ∀ t ∈ xs ++ n :: ys, 10 ∉ t) (hn : IsNoise n) (r1 r2 : Result)
-    (h1 : analyseX86 m o1 (joinLines (xs ++ ys)) = .ok r1)
-    (h2 : analyseX86 m o2 (joinLines (xs ++ n :: ys)) = .ok r2)
+    (hnl : ∀ t ∈ xs ++ n :: ys, 10 ∉ t) (hn : IsNoise isa n) (r1 r2 : Result)
+    (h1 : analyse isa m o1 (joinLines (xs ++ ys)) = .ok r1)
+    (h2 : analyse isa m o2 (joinLines (xs ++ n :: ys)) = .ok r2)
     (S1 S2 : Nat → Bool)
     (hk1 : r1.kernel = r1.parsed.filter fun p => S1 p.num)
     (hk2 : r2.kernel = r2.parsed.filter fun p => S2 p.num)
@@ -505,7 +514,7 @@ theorem e2e_noise_transparent_text (m : Model) (o1 o2 : Opts) (hfd : o1.flagDeps
     ∃ (a₀ : Analysis) (g1 g2 : Nat → Nat), Incr g1 ∧ Incr g2 ∧
       (∀ j (h : j < (r1.kernel.filter (·.isInstr)).length), g1 j = ((r1.kernel.filter (·.isInstr))[j]).num) ∧
       (∀ j (h : j < (r2.kernel.filter (·.isInstr)).length), g2 j = ((r2.kernel.filter (·.isInstr))[j]).num) ∧
-      a₀ = analyze (EndToEnd.cfgOf m o1) (Props.C11Pipeline.canon (r1.kernel.filter (·.isInstr))) ∧
+      a₀ = analyze (EndToEnd.cfgOf isa m o1) (Props.C11Pipeline.canon (r1.kernel.filter (·.isInstr))) ∧
       SameOnInstr m.mm.ports.length r1.analysis (a₀.rename g1) ∧
       SameOnInstr m.mm.ports.length r2.analysis (a₀.rename g2) := by
   have hnl1 : ∀ t ∈ xs ++ ys, 10 ∉ t := by
@@ -513,32 +522,32 @@ theorem e2e_noise_transparent_text (m : Model) (o1 o2 : Opts) (hfd : o1.flagDeps
     rcases List.mem_append.mp ht with h | h
     · exact hnl t (by simp [h])
     · exact hnl t (by simp [h])
-  obtain ⟨k1, _, _, _, hr1⟩ := analyse_lines_ok_inv m o1 _ hne hnl1 r1 h1
-  obtain ⟨k2, _, _, _, hr2⟩ := analyse_lines_ok_inv m o2 _ (by simp) hnl r2 h2
-  have hc : EndToEnd.cfgOf m o2 = EndToEnd.cfgOf m o1 := by simp [EndToEnd.cfgOf, hfd, hfl]
+  obtain ⟨k1, _, _, _, hr1⟩ := analyse_lines_ok_inv isa m o1 _ hne hnl1 r1 h1
+  obtain ⟨k2, _, _, _, hr2⟩ := analyse_lines_ok_inv isa m o2 _ (by simp) hnl r2 h2
+  have hc : EndToEnd.cfgOf isa m o2 = EndToEnd.cfgOf isa m o1 := by simp [EndToEnd.cfgOf, hfd, hfl]
   have e1 : r1.kernel = k1 := by rw [hr1, resultOf]
   have e2 : r2.kernel = k2 := by rw [hr2, resultOf]
-  have p1 : r1.parsed = (textLines m (xs ++ ys)).map (·.pl) := by rw [hr1, resultOf]
-  have p2 : r2.parsed = (textLines m (xs ++ n :: ys)).map (·.pl) := by rw [hr2, resultOf]
-  have a1 : r1.analysis = analyze (EndToEnd.cfgOf m o1) r1.kernel := by rw [e1, hr1, resultOf]
-  have a2 : r2.analysis = analyze (EndToEnd.cfgOf m o1) r2.kernel := by rw [e2, hr2, resultOf, hc]
+  have p1 : r1.parsed = (textLines isa m (xs ++ ys)).map (·.pl) := by rw [hr1, resultOf]
+  have p2 : r2.parsed = (textLines isa m (xs ++ n :: ys)).map (·.pl) := by rw [hr2, resultOf]
+  have a1 : r1.analysis = analyze (EndToEnd.cfgOf isa m o1) r1.kernel := by rw [e1, hr1, resultOf]
+  have a2 : r2.analysis = analyze (EndToEnd.cfgOf isa m o1) r2.kernel := by rw [e2, hr2, resultOf, hc]
   have inc1 : Increasing r1.kernel := by
-    rw [hk1, p1]; exact (textLines_increasing m _).sublist List.filter_sublist
+    rw [hk1, p1]; exact (textLines_increasing isa m _).sublist List.filter_sublist
   have inc2 : Increasing r2.kernel := by
-    rw [hk2, p2]; exact (textLines_increasing m _).sublist List.filter_sublist
+    rw [hk2, p2]; exact (textLines_increasing isa m _).sublist List.filter_sublist
   have hsame : (r1.kernel.filter (·.isInstr)).map eraseNum = (r2.kernel.filter (·.isInstr)).map eraseNum := by
     rw [hk1, hk2, p1, p2]
-    exact kernels_same_instr m xs ys n hn S1 S2 hS
-  have := Props.C11Pipeline.noise_transparent (EndToEnd.cfgOf m o1) r1.kernel r2.kernel inc1 inc2 hsame
+    exact kernels_same_instr isa m xs ys n hn S1 S2 hS
+  have := Props.C11Pipeline.noise_transparent (EndToEnd.cfgOf isa m o1) r1.kernel r2.kernel inc1 inc2 hsame
   rw [← a1, ← a2] at this
   exact this
 
 /-- the numbers that are not line numbers are equal in the two analyses -/
-theorem e2e_noise_transparent_values (m : Model) (o1 o2 : Opts) (hfd : o1.flagDeps = o2.flagDeps)
+theorem e2e_noise_transparent_values (isa : Operand.Isa) (m : Model) (o1 o2 : Opts) (hfd : o1.flagDeps = o2.flagDeps)
     (hfl : o1.floor = o2.floor) (xs ys : List Txt) (n : Txt) (hne : xs ++ ys ≠ [])
-    (hnl : ∀ t ∈ xs ++ n :: ys, 10 ∉ t) (hn : IsNoise n) (r1 r2 : Result)
-    (h1 : analyseX86 m o1 (joinLines (xs ++ ys)) = .ok r1)
-    (h2 : analyseX86 m o2 (joinLines (xs ++ n :: ys)) = .ok r2)
+    (hnl : ∀ t ∈ xs ++ n :: ys, 10 ∉ t) (hn : IsNoise isa n) (r1 r2 : Result)
+    (h1 : analyse isa m o1 (joinLines (xs ++ ys)) = .ok r1)
+    (h2 : analyse isa m o2 (joinLines (xs ++ n :: ys)) = .ok r2)
     (S1 S2 : Nat → Bool)
     (hk1 : r1.kernel = r1.parsed.filter fun p => S1 p.num)
     (hk2 : r2.kernel = r2.parsed.filter fun p => S2 p.num)
@@ -551,51 +560,51 @@ theorem e2e_noise_transparent_values (m : Model) (o1 o2 : Opts) (hfd : o1.flagDe
     rcases List.mem_append.mp ht with h | h
     · exact hnl t (by simp [h])
     · exact hnl t (by simp [h])
-  obtain ⟨k1, _, _, _, hr1⟩ := analyse_lines_ok_inv m o1 _ hne hnl1 r1 h1
-  obtain ⟨k2, _, _, _, hr2⟩ := analyse_lines_ok_inv m o2 _ (by simp) hnl r2 h2
-  have hc : EndToEnd.cfgOf m o2 = EndToEnd.cfgOf m o1 := by simp [EndToEnd.cfgOf, hfd, hfl]
+  obtain ⟨k1, _, _, _, hr1⟩ := analyse_lines_ok_inv isa m o1 _ hne hnl1 r1 h1
+  obtain ⟨k2, _, _, _, hr2⟩ := analyse_lines_ok_inv isa m o2 _ (by simp) hnl r2 h2
+  have hc : EndToEnd.cfgOf isa m o2 = EndToEnd.cfgOf isa m o1 := by simp [EndToEnd.cfgOf, hfd, hfl]
   have e1 : r1.kernel = k1 := by rw [hr1, resultOf]
   have e2 : r2.kernel = k2 := by rw [hr2, resultOf]
-  have p1 : r1.parsed = (textLines m (xs ++ ys)).map (·.pl) := by rw [hr1, resultOf]
-  have p2 : r2.parsed = (textLines m (xs ++ n :: ys)).map (·.pl) := by rw [hr2, resultOf]
-  have a1 : r1.analysis = analyze (EndToEnd.cfgOf m o1) r1.kernel := by rw [e1, hr1, resultOf]
-  have a2 : r2.analysis = analyze (EndToEnd.cfgOf m o1) r2.kernel := by rw [e2, hr2, resultOf, hc]
+  have p1 : r1.parsed = (textLines isa m (xs ++ ys)).map (·.pl) := by rw [hr1, resultOf]
+  have p2 : r2.parsed = (textLines isa m (xs ++ n :: ys)).map (·.pl) := by rw [hr2, resultOf]
+  have a1 : r1.analysis = analyze (EndToEnd.cfgOf isa m o1) r1.kernel := by rw [e1, hr1, resultOf]
+  have a2 : r2.analysis = analyze (EndToEnd.cfgOf isa m o1) r2.kernel := by rw [e2, hr2, resultOf, hc]
   have inc1 : Increasing r1.kernel := by
-    rw [hk1, p1]; exact (textLines_increasing m _).sublist List.filter_sublist
+    rw [hk1, p1]; exact (textLines_increasing isa m _).sublist List.filter_sublist
   have inc2 : Increasing r2.kernel := by
-    rw [hk2, p2]; exact (textLines_increasing m _).sublist List.filter_sublist
+    rw [hk2, p2]; exact (textLines_increasing isa m _).sublist List.filter_sublist
   have hsame : (r1.kernel.filter (·.isInstr)).map eraseNum = (r2.kernel.filter (·.isInstr)).map eraseNum := by
     rw [hk1, hk2, p1, p2]
-    exact kernels_same_instr m xs ys n hn S1 S2 hS
-  have v := Props.C11Pipeline.noise_transparent_values (EndToEnd.cfgOf m o1) r1.kernel r2.kernel inc1 inc2 hsame
+    exact kernels_same_instr isa m xs ys n hn S1 S2 hS
+  have v := Props.C11Pipeline.noise_transparent_values (EndToEnd.cfgOf isa m o1) r1.kernel r2.kernel inc1 inc2 hsame
   rw [← a1, ← a2] at v
   exact ⟨v.1, v.2.1, v.2.2.1, v.2.2.2.1⟩
 
 /-- instance: the whole file is the kernel in both runs (no marker, no `--lines`) -/
-theorem e2e_noise_transparent_whole_file (m : Model) (o : Opts) (xs ys : List Txt) (n : Txt) (hne : xs ++ ys ≠ [])
-    (hnl : ∀ t ∈ xs ++ n :: ys, 10 ∉ t) (hn : IsNoise n) (r1 r2 : Result)
-    (h1 : analyseX86 m o (joinLines (xs ++ ys)) = .ok r1)
-    (h2 : analyseX86 m o (joinLines (xs ++ n :: ys)) = .ok r2)
+theorem e2e_noise_transparent_whole_file (isa : Operand.Isa) (m : Model) (o : Opts) (xs ys : List Txt) (n : Txt) (hne : xs ++ ys ≠ [])
+    (hnl : ∀ t ∈ xs ++ n :: ys, 10 ∉ t) (hn : IsNoise isa n) (r1 r2 : Result)
+    (h1 : analyse isa m o (joinLines (xs ++ ys)) = .ok r1)
+    (h2 : analyse isa m o (joinLines (xs ++ n :: ys)) = .ok r2)
     (hk1 : r1.kernel = r1.parsed) (hk2 : r2.kernel = r2.parsed) :
     ∃ (a₀ : Analysis) (g1 g2 : Nat → Nat), Incr g1 ∧ Incr g2 ∧
       SameOnInstr m.mm.ports.length r1.analysis (a₀.rename g1) ∧
       SameOnInstr m.mm.ports.length r2.analysis (a₀.rename g2) := by
   obtain ⟨a₀, g1, g2, i1, i2, _, _, _, s1, s2⟩ :=
-    e2e_noise_transparent_text m o o rfl rfl xs ys n hne hnl hn r1 r2 h1 h2 (fun _ => true) (fun _ => true)
+    e2e_noise_transparent_text isa m o o rfl rfl xs ys n hne hnl hn r1 r2 h1 h2 (fun _ => true) (fun _ => true)
       (by simp [hk1]) (by simp [hk2]) (fun _ => rfl)
   exact ⟨a₀, g1, g2, i1, i2, s1, s2⟩
 
 /-- instance: `--lines` in both runs, the second specification naming the moved numbers -/
-theorem e2e_noise_transparent_lines (m : Model) (o1 o2 : Opts) (s1 s2 : Txt) (R1 R2 : List Int)
+theorem e2e_noise_transparent_lines (isa : Operand.Isa) (m : Model) (o1 o2 : Opts) (s1 s2 : Txt) (R1 R2 : List Int)
     (hm1 : o1.mode = .lines s1) (hm2 : o2.mode = .lines s2)
     (hR1 : Marker.getLineRange s1 = some R1) (hR2 : Marker.getLineRange s2 = some R2)
     (hfd : o1.flagDeps = o2.flagDeps) (hfl : o1.floor = o2.floor)
     (xs ys : List Txt) (n : Txt) (hne : xs ++ ys ≠ [])
-    (hnl : ∀ t ∈ xs ++ n :: ys, 10 ∉ t) (hn : IsNoise n)
+    (hnl : ∀ t ∈ xs ++ n :: ys, 10 ∉ t) (hn : IsNoise isa n)
     (hS : ∀ x : Nat, R2.contains ((shiftAt xs.length x : Nat) : Int) = R1.contains (x : Int))
     (r1 r2 : Result)
-    (h1 : analyseX86 m o1 (joinLines (xs ++ ys)) = .ok r1)
-    (h2 : analyseX86 m o2 (joinLines (xs ++ n :: ys)) = .ok r2) :
+    (h1 : analyse isa m o1 (joinLines (xs ++ ys)) = .ok r1)
+    (h2 : analyse isa m o2 (joinLines (xs ++ n :: ys)) = .ok r2) :
     ∃ (a₀ : Analysis) (g1 g2 : Nat → Nat), Incr g1 ∧ Incr g2 ∧
       SameOnInstr m.mm.ports.length r1.analysis (a₀.rename g1) ∧
       SameOnInstr m.mm.ports.length r2.analysis (a₀.rename g2) := by
@@ -604,8 +613,8 @@ theorem e2e_noise_transparent_lines (m : Model) (o1 o2 : Opts) (s1 s2 : Txt) (R1
     rcases List.mem_append.mp ht with h | h
     · exact hnl t (by simp [h])
     · exact hnl t (by simp [h])
-  obtain ⟨k1, hs1, _, _, hr1⟩ := analyse_lines_ok_inv m o1 _ hne hnl1 r1 h1
-  obtain ⟨k2, hs2, _, _, hr2⟩ := analyse_lines_ok_inv m o2 _ (by simp) hnl r2 h2
+  obtain ⟨k1, hs1, _, _, hr1⟩ := analyse_lines_ok_inv isa m o1 _ hne hnl1 r1 h1
+  obtain ⟨k2, hs2, _, _, hr2⟩ := analyse_lines_ok_inv isa m o2 _ (by simp) hnl r2 h2
   rw [hm1] at hs1
   rw [hm2] at hs2
   obtain ⟨ra, hra, e1⟩ := select_lines_eq s1 _ _ hs1
@@ -615,7 +624,7 @@ theorem e2e_noise_transparent_lines (m : Model) (o1 o2 : Opts) (s1 s2 : Txt) (R1
   have hk1 : r1.kernel = r1.parsed.filter fun p => R1.contains (p.num : Int) := by rw [hr1, resultOf]; exact e1
   have hk2 : r2.kernel = r2.parsed.filter fun p => R2.contains (p.num : Int) := by rw [hr2, resultOf]; exact e2
   obtain ⟨a₀, g1, g2, i1, i2, _, _, _, q1, q2⟩ :=
-    e2e_noise_transparent_text m o1 o2 hfd hfl xs ys n hne hnl hn r1 r2 h1 h2
+    e2e_noise_transparent_text isa m o1 o2 hfd hfl xs ys n hne hnl hn r1 r2 h1 h2
       (fun x => R1.contains (x : Int)) (fun x => R2.contains (x : Int)) hk1 hk2 hS
   exact ⟨a₀, g1, g2, i1, i2, q1, q2⟩
 
@@ -627,21 +636,21 @@ theorem e2e_noise_transparent_lines (m : Model) (o1 o2 : Opts) (s1 s2 : Txt) (R1
     kernel line (`assign_tp_lt` leaves `len(ports)` values on every path: own entry, composition,
     unknown, non-instruction), kernel texts without line feed (they are lines of the file), column sums
     empty or one per port. -/
-theorem e2e_report_wf (m : Model) (o : Opts) (file : Txt) (r : Result) (h : analyseX86 m o file = .ok r)
+theorem e2e_report_wf (isa : Operand.Isa) (m : Model) (o : Opts) (file : Txt) (r : Result) (h : analyse isa m o file = .ok r)
     (hports : m.mm.ports ≠ []) (hnames : ∀ n ∈ m.mm.ports, Report.NameOk n ∧ Report.NoNL n)
     (hrepr : ∀ q, Report.TokOk (o.repr q) ∧ Report.WordOk (o.repr q) ∧ Report.NoNL (o.repr q)) :
     Report.WF r.report := by
-  obtain ⟨fs, k, hc, hs, hk, he, hr⟩ := analyse_ok_inv m o file r h
+  obtain ⟨fs, k, hc, hs, hk, he, hr⟩ := analyse_ok_inv isa m o file r h
   have hsub := select_sublist _ _ _ hs
-  have hlines := linesOf_file m _ fs hc
+  have hlines := linesOf_file isa m _ fs hc
   -- every kernel line is a line of the file without exception
-  have hline : ∀ l ∈ k, ∃ t, t ∈ splitLines file ∧ l = (lineOfText m l.num t).pl ∧ (lineOfText m l.num t).err = none := by
+  have hline : ∀ l ∈ k, ∃ t, t ∈ splitLines file ∧ l = (lineOfText isa m l.num t).pl ∧ (lineOfText isa m l.num t).err = none := by
     intro l hl
     have hl' := hsub.subset hl
     rw [hlines] at hl'
-    obtain ⟨t, ht, e⟩ := textLines_mem m _ l hl'
+    obtain ⟨t, ht, e⟩ := textLines_mem isa m _ l hl'
     refine ⟨t, numbered_mem_text 0 0 _ _ ht, e, ?_⟩
-    have hmem : lineOfText m l.num t ∈ linesOf m fs := by
+    have hmem : lineOfText isa m l.num t ∈ linesOf isa m fs := by
       rw [hlines]; exact List.mem_map.mpr ⟨(l.num, t), ht, rfl⟩
     exact firstErr_none _ _ he _ hmem l hl (by simp)
   have hlen : ∀ l ∈ k, (semOf m.mm.ports.length l).pressure.length = m.mm.ports.length ∧
@@ -649,9 +658,9 @@ theorem e2e_report_wf (m : Model) (o : Opts) (file : Txt) (r : Result) (h : anal
     intro l hl
     obtain ⟨t, _, e, herr⟩ := hline l hl
     rw [e]
-    have := lineOfText_lens m l.num t herr
+    have := lineOfText_lens isa m l.num t herr
     simpa using this
-  have hrep : r.report = toReport o.repr m.mm.ports o.ignoreUnknown m.mm.ports.length k (analyze (EndToEnd.cfgOf m o) k) := by
+  have hrep : r.report = toReport o.repr m.mm.ports o.ignoreUnknown m.mm.ports.length k (analyze (EndToEnd.cfgOf isa m o) k) := by
     rw [hr, resultOf]
   rw [hrep]
   refine ⟨hports, hnames, ?_, ?_, ?_, ?_, ?_, ?_⟩
@@ -661,7 +670,7 @@ theorem e2e_report_wf (m : Model) (o : Opts) (file : Txt) (r : Result) (h : anal
     obtain ⟨l, hl, rfl⟩ := List.mem_map.mp hrow
     obtain ⟨t, ht, e, _⟩ := hline l hl
     refine ⟨(hlen l hl).1, (hlen l hl).2, ?_⟩
-    have : l.text = t := by rw [e]; exact lineOfText_text m _ t
+    have : l.text = t := by rw [e]; exact lineOfText_text isa m _ t
     show Report.NoNL l.text
     rw [this]
     exact (splitLines_spec file).2.1 t ht
@@ -677,7 +686,7 @@ theorem e2e_report_wf (m : Model) (o : Opts) (file : Txt) (r : Result) (h : anal
     obtain ⟨x, _, rfl⟩ := List.mem_map.mp hmem
     exact ⟨(hrepr x.2).1, (hrepr x.2).2.2⟩
   · exact ⟨(hrepr _).2.1, (hrepr _).2.2⟩
-  · show (analyze (EndToEnd.cfgOf m o) k).colSums = [] ∨ (analyze (EndToEnd.cfgOf m o) k).colSums.length = m.mm.ports.length
+  · show (analyze (EndToEnd.cfgOf isa m o) k).colSums = [] ∨ (analyze (EndToEnd.cfgOf isa m o) k).colSums.length = m.mm.ports.length
     apply colSums_len
     intro pl hpl
     obtain ⟨l, hl, rfl⟩ := List.mem_map.mp hpl
@@ -688,7 +697,7 @@ theorem e2e_report_wf (m : Model) (o : Opts) (file : Txt) (r : Result) (h : anal
     computed — port columns, every line with its pressure cells at the shown precision, CP and LCD cells,
     flag symbols, texts, and the totals line or the missing-data warning with its number; and the printed
     text is that table between the header block and the LCD list. -/
-theorem e2e_report_roundtrip (m : Model) (o : Opts) (file : Txt) (r : Result) (h : analyseX86 m o file = .ok r)
+theorem e2e_report_roundtrip (isa : Operand.Isa) (m : Model) (o : Opts) (file : Txt) (r : Result) (h : analyse isa m o file = .ok r)
     (hports : m.mm.ports ≠ []) (hnames : ∀ n ∈ m.mm.ports, Report.NameOk n ∧ Report.NoNL n)
     (hrepr : ∀ q, Report.TokOk (o.repr q) ∧ Report.WordOk (o.repr q) ∧ Report.NoNL (o.repr q)) :
     Spec.Report.parseTable (Report.combinedView r.report) = some (Report.view r.report) ∧
@@ -696,10 +705,10 @@ theorem e2e_report_roundtrip (m : Model) (o : Opts) (file : Txt) (r : Result) (h
     r.report.rows.map (·.line) = r.kernel.map (·.num) ∧
     r.report.tpSum = r.analysis.colSums ∧
     r.report.cp.map (·.1) = r.analysis.cpMarks.map (·.1) := by
-  have hwf := e2e_report_wf m o file r h hports hnames hrepr
-  obtain ⟨fs, k, hc, hs, hk, he, hr⟩ := analyse_ok_inv m o file r h
+  have hwf := e2e_report_wf isa m o file r h hports hnames hrepr
+  obtain ⟨fs, k, hc, hs, hk, he, hr⟩ := analyse_ok_inv isa m o file r h
   refine ⟨Props.C13.report_roundtrip r.report hwf, ?_, ?_, ?_, ?_⟩
-  · obtain ⟨_, k', _, _, _, _, _, _, _, _, ht⟩ := e2e_factors_ok m o file r h
+  · obtain ⟨_, k', _, _, _, _, _, _, _, _, ht⟩ := e2e_factors_ok isa m o file r h
     refine ⟨Report.headerReport o.version o.file o.arch o.stamp ++
         Report.warningsHeader (Report.archWarningFlag o.archGiven)
           (Report.lengthWarningFlag (linesGiven o.mode) k'.length r.parsed.length) ++ Report.symbolMap,
@@ -805,15 +814,15 @@ example : checkOk (analyseX86 model opts (joinLines ([l1, ln] ++ lk :: [l3]))) (
       (∀ row ∈ r2.analysis.rows, row.line = 3 → row.tp = 0 ∧ row.lat = 0 ∧ row.pressure = [0, 0]) ∧
       (∀ row1 ∈ r1.analysis.rows, ∀ row2 ∈ r2.analysis.rows, row1.line = row2.line → row1.line ≠ 3 → row1 = row2) := by
   refine ⟨by decide +kernel, by decide +kernel, fun r1 r2 h1 h2 => ?_⟩
-  have h := e2e_unknown_isolated model opts [l1, ln] [l3] lk lu
+  have h := e2e_unknown_isolated .x86 model opts [l1, ln] [l3] lk lu
     (by decide +kernel) (by decide +kernel) (by decide +kernel) (by decide +kernel)
-    { mnemonic := some foo, operands := [.reg [114, 98, 120], .reg [114, 99, 120]] } foo (by decide +kernel) rfl
+    (Glue.formX86 { mnemonic := some foo, operands := [.reg [114, 98, 120], .reg [114, 99, 120]] }) foo (by decide +kernel) rfl
     ex_no_foo r1 r2 h1 h2
   exact ⟨fun row hr hl => let x := h.2.1 row hr hl; ⟨x.2.1, x.2.2.1, x.2.2.2.2⟩, h.2.2.2⟩
 
 /-- the comment line is a noise line -/
-theorem ex_ln_noise : IsNoise ln :=
-  ⟨by decide +kernel, { comment := some [110, 111, 116, 101] }, by decide +kernel, rfl⟩
+theorem ex_ln_noise : IsNoise .x86 ln :=
+  ⟨by decide +kernel, Glue.formX86 { comment := some [110, 111, 116, 101] }, by decide +kernel, rfl⟩
 
 /-- `e2e_noise_transparent_text`, whole file: `[l1, lu, l3]` and `[l1, # note, lu, l3]` are both analysed
     with the whole file as the kernel, and agree up to the renaming -/
@@ -832,9 +841,9 @@ example : checkOk (analyseX86 model opts (joinLines ([l1] ++ [lu, l3]))) (fun r 
   obtain ⟨r2', e2, q2⟩ := ex_checkOk_elim c2
   rw [h1] at e1; cases e1
   rw [h2] at e2; cases e2
-  have k1 := ((e2e_rows_local model opts _ r1 h1).2.1).eq_of_length (by simpa using q1)
-  have k2 := ((e2e_rows_local model opts _ r2 h2).2.1).eq_of_length (by simpa using q2)
-  exact e2e_noise_transparent_whole_file model opts [l1] [lu, l3] ln (by simp)
+  have k1 := ((e2e_rows_local .x86 model opts _ r1 h1).2.1).eq_of_length (by simpa using q1)
+  have k2 := ((e2e_rows_local .x86 model opts _ r2 h2).2.1).eq_of_length (by simpa using q2)
+  exact e2e_noise_transparent_whole_file .x86 model opts [l1] [lu, l3] ln (by simp)
     (by decide +kernel) ex_ln_noise r1 r2 h1 h2 k1 k2
 
 theorem ex_shift_ok : ∀ x : Nat, ([1, 3, 4] : List Int).contains ((shiftAt 1 x : Nat) : Int) =
@@ -864,7 +873,7 @@ example : checkOk (analyseX86 model (optsL [49, 44, 50, 45, 51]) (joinLines ([l1
       ∃ (a₀ : Analysis) (g1 g2 : Nat → Nat), Incr g1 ∧ Incr g2 ∧
         SameOnInstr 2 r1.analysis (a₀.rename g1) ∧ SameOnInstr 2 r2.analysis (a₀.rename g2) := by
   refine ⟨by decide +kernel, by decide +kernel, fun r1 r2 h1 h2 => ?_⟩
-  exact e2e_noise_transparent_lines model (optsL [49, 44, 50, 45, 51]) (optsL [49, 44, 51, 45, 52])
+  exact e2e_noise_transparent_lines .x86 model (optsL [49, 44, 50, 45, 51]) (optsL [49, 44, 51, 45, 52])
     [49, 44, 50, 45, 51] [49, 44, 51, 45, 52] [1, 2, 3] [1, 3, 4] rfl rfl
     (by decide +kernel) (by decide +kernel) rfl rfl [l1] [lu, l3] ln (by simp)
     (by decide +kernel) ex_ln_noise ex_shift_ok r1 r2 h1 h2
@@ -896,13 +905,13 @@ example : checkOk (analyseX86 model opts (joinLines [l1, ln, lu, l3])) (fun _ =>
     ∀ r, analyseX86 model opts (joinLines [l1, ln, lu, l3]) = .ok r →
       Spec.Report.parseTable (Report.combinedView r.report) = some (Report.view r.report) := by
   refine ⟨by decide +kernel, fun r h => ?_⟩
-  exact (e2e_report_roundtrip model opts _ r h (by decide) ex_names_ok ex_reprEx_ok).1
+  exact (e2e_report_roundtrip .x86 model opts _ r h (by decide) ex_names_ok ex_reprEx_ok).1
 
 /-- `e2e_per_line_local_files`: line 4 of the long file and line 3 of the short one have the same text, hence the
     same per-instruction data, under different options -/
 example : ∀ r1 r2, analyseX86 model opts (joinLines [l1, ln, lu, l3]) = .ok r1 →
     analyseX86 model (optsL [49, 44, 50, 45, 51]) (joinLines [l1, lu, l3]) = .ok r2 →
     ∀ p1 ∈ r1.parsed, ∀ p2 ∈ r2.parsed, p1.text = p2.text → eraseNum p1 = eraseNum p2 :=
-  fun r1 r2 h1 h2 p1 hp1 p2 hp2 ht => e2e_per_line_local_files model _ _ _ _ r1 r2 h1 h2 p1 p2 hp1 hp2 ht
+  fun r1 r2 h1 h2 p1 hp1 p2 hp2 ht => e2e_per_line_local_files .x86 model _ _ _ _ r1 r2 h1 h2 p1 p2 hp1 hp2 ht
 
 end OsacaVerif.Props.EndToEnd
